@@ -24,9 +24,11 @@ VARIABLES
     pinned,   \* set of ids pinned through pin_object / pinning roots
     bound,    \* set of bound mutators
     failed,   \* a guard failed in the current program: skip to the next Reset
+    aux,      \* [exh: the next GCEnd answers an exhaustive user request; grid: inside the C03 argument
+              \*  grid; lastUsed: used pages at the end of the previous C09 cycle (-1: none); oom: OOM count]
     stats     \* counters for evidence (not constrained)
 
-vars == <<l, cfg, objs, roots, ivl, imm, pinned, bound, failed, stats>>
+vars == <<l, cfg, objs, roots, ivl, imm, pinned, bound, failed, aux, stats>>
 
 Null == 0
 
@@ -60,7 +62,7 @@ Bump(key) == [stats EXCEPT ![key] = @ + 1]
 \* ---- actions -------------------------------------------------------------------------------
 DoBoot(e) ==
     /\ cfg' = e
-    /\ UNCHANGED <<objs, roots, ivl, imm, pinned, bound, failed, stats>>
+    /\ UNCHANGED <<objs, roots, ivl, imm, pinned, bound, failed, aux, stats>>
 
 DoReset(e) ==
     /\ roots' = << >>
@@ -69,7 +71,32 @@ DoReset(e) ==
     /\ ivl' = IF failed THEN [id \in DOMAIN imm |-> ivl[id]] ELSE ivl
     /\ failed' = FALSE
     /\ stats' = Bump("programs")
+    /\ aux' = [aux EXCEPT !.exh = FALSE, !.grid = FALSE]
     /\ UNCHANGED <<cfg, imm, bound>>
+
+\* C03: the space each plan maps a semantics to (names as the spaces report them). The driver logs
+\* the space the SFT map resolves the returned address to (first and last word) and, through an
+\* independent path, the space bound to the allocator the mutator uses for the semantics.
+DefaultSpace(plan) ==
+    CASE plan = "NoGC" -> {"nogc_space"}
+      [] plan = "SemiSpace" -> {"copyspace0", "copyspace1"}
+      [] plan \in {"GenCopy", "GenImmix"} -> {"nursery"}
+      [] plan = "MarkSweep" -> {"ms", "MallocSpace"}
+      [] plan = "PageProtect" -> {"pageprotect"}
+      [] plan \in {"Immix", "StickyImmix", "ConcurrentImmix"} -> {"immix"}
+      [] plan = "MarkCompact" -> {"mc"}
+      [] plan = "Compressor" -> {"compressor_space"}
+      [] OTHER -> {}
+SpaceFor(plan, sem) ==
+    IF plan = "NoGC" THEN {"nogc_space", "immortal", "los", "nonmoving"}
+    ELSE CASE sem = 0 -> DefaultSpace(plan)
+           [] sem = 1 -> {"immortal"}
+           [] sem = 2 -> {"los"}
+           [] sem = 6 -> {"nonmoving"}
+           [] sem = 3 -> {"code_space", "immortal"}
+           [] sem = 5 -> {"code_lo_space", "los"}
+           [] sem = 4 -> {"read_only_space", "immortal"}
+           [] OTHER -> {}
 
 AllocOK(e) ==
     /\ G("C01:fresh-id", e.id \notin DOMAIN objs)
@@ -77,6 +104,8 @@ AllocOK(e) ==
     /\ G("C03:zeroed", e.zero)
     /\ G("C03:in-mmtk", e.inMMTk)
     /\ G("C03:ref-offset", e.a = AddW(e.s, RefOffW))
+    /\ G("C03:space", "sp" \in DOMAIN e =>
+            e.sp = e.spSem /\ e.spEnd = e.sp /\ e.sp \in SpaceFor(cfg.plan, e.sem))
     /\ G("C02:overlap", \A o \in DOMAIN ivl : Disjoint(ivl[o], Ivl(e.s, e.sz)))
 DoAlloc(e) ==
     /\ objs' = (e.id :> [sz |-> e.sz, nf |-> e.nf, k |-> e.k, sem |-> e.sem, h |-> e.h,
@@ -86,7 +115,7 @@ DoAlloc(e) ==
     /\ imm' = IF e.sem \in NeverCollectedSem \/ IsNoGC
               THEN (e.id :> [a |-> e.a, h |-> e.h]) @@ imm ELSE imm
     /\ stats' = Bump("allocs")
-    /\ UNCHANGED <<cfg, pinned, bound, failed>>
+    /\ UNCHANGED <<cfg, pinned, bound, failed, aux>>
 
 WriteOK(e) ==
     /\ G("C01:write-src-known", e.src \in DOMAIN objs /\ e.k \in 1..objs[e.src].nf)
@@ -95,7 +124,7 @@ WriteOK(e) ==
 DoWrite(e) ==
     /\ objs' = [objs EXCEPT ![e.src].f[e.k] = e.tgt]
     /\ stats' = Bump("writes")
-    /\ UNCHANGED <<cfg, roots, ivl, imm, pinned, bound, failed>>
+    /\ UNCHANGED <<cfg, roots, ivl, imm, pinned, bound, failed, aux>>
 
 LoadOK(e) ==
     /\ G("C01:load-src-known", e.src \in DOMAIN objs /\ e.k \in 1..objs[e.src].nf)
@@ -104,18 +133,18 @@ SetRootOK(e) == G("C01:root-known", e.id = Null \/ e.id \in DOMAIN objs)
 DoSetRoot(e) ==
     /\ roots' = IF e.id = Null THEN [s \in DOMAIN roots \ {e.slot} |-> roots[s]]
                 ELSE (e.slot :> e.id) @@ roots
-    /\ UNCHANGED <<cfg, objs, ivl, imm, pinned, bound, failed, stats>>
+    /\ UNCHANGED <<cfg, objs, ivl, imm, pinned, bound, failed, aux, stats>>
 
-DoBind(e) == bound' = bound \cup {e.m} /\ UNCHANGED <<cfg, objs, roots, ivl, imm, pinned, failed, stats>>
+DoBind(e) == bound' = bound \cup {e.m} /\ UNCHANGED <<cfg, objs, roots, ivl, imm, pinned, failed, aux, stats>>
 DoDestroy(e) ==
     /\ bound' = bound \ {e.m}
     /\ roots' = [s \in {s \in DOMAIN roots : s \div 100 # e.m} |-> roots[s]]
-    /\ UNCHANGED <<cfg, objs, ivl, imm, pinned, failed, stats>>
+    /\ UNCHANGED <<cfg, objs, ivl, imm, pinned, failed, aux, stats>>
 
 DoPin(e) == pinned' = IF e.ok THEN pinned \cup {e.id} ELSE pinned
-            /\ UNCHANGED <<cfg, objs, roots, ivl, imm, bound, failed, stats>>
+            /\ UNCHANGED <<cfg, objs, roots, ivl, imm, bound, failed, aux, stats>>
 DoUnpin(e) == pinned' = pinned \ {e.id}
-              /\ UNCHANGED <<cfg, objs, roots, ivl, imm, bound, failed, stats>>
+              /\ UNCHANGED <<cfg, objs, roots, ivl, imm, bound, failed, aux, stats>>
 
 \* ---- the collection report -------------------------------------------------------------------
 Good(e) == \A i \in DOMAIN e.nodes : "bad" \notin DOMAIN e.nodes[i]
@@ -151,6 +180,15 @@ GCEndOK(e) ==
     \* C02: the surviving objects do not overlap each other
     /\ G("C02:survivors-overlap", \A i, j \in DOMAIN e.nodes : i < j =>
             Disjoint(Ivl(e.nodes[i].a, e.nodes[i].sz), Ivl(e.nodes[j].a, e.nodes[j].sz)))
+    \* C07 (vo_bit builds): after an exhaustive collection MMTk enumerates exactly the survivors
+    \* (reachable objects plus the objects of never-collected spaces), each once
+    /\ G("C07:enumerate-invalid", "enum" \in DOMAIN e => e.enumBad = 0)
+    /\ G("C07:enumerate-duplicate", "enum" \in DOMAIN e /\ aux.exh =>
+            Cardinality({e.enum[i] : i \in DOMAIN e.enum}) = Len(e.enum))
+    /\ G("C07:enumerate-missing", "enum" \in DOMAIN e =>
+            R \cup DOMAIN imm \subseteq {e.enum[i] : i \in DOMAIN e.enum})
+    /\ G("C07:enumerate-dead", "enum" \in DOMAIN e /\ aux.exh =>
+            {e.enum[i] : i \in DOMAIN e.enum} \subseteq R \cup DOMAIN imm)
     \* C07 (vo_bit builds): every surviving object is a valid object for MMTk
     /\ G("C07:survivor-not-valid", \A i \in DOMAIN e.nodes :
             "vo" \in DOMAIN e.nodes[i] => e.nodes[i].vo)
@@ -168,15 +206,68 @@ DoGCEnd(e) ==
     /\ stats' = [Bump("gcs") EXCEPT !["moved"] = @ +
                    Cardinality({id \in NodeIds(e) : e.nodes[newA[id]].a # objs[id].a}),
                  !["survivors"] = @ + Len(e.nodes)]
+    /\ aux' = [aux EXCEPT !.exh = FALSE]
     /\ UNCHANGED <<cfg, roots, imm, pinned, bound, failed>>
 
-Skip == UNCHANGED <<cfg, objs, roots, ivl, imm, pinned, bound, failed, stats>>
-FailStep == failed' = TRUE /\ UNCHANGED <<cfg, objs, roots, ivl, imm, pinned, bound, stats>>
+\* An Alloc of a never-collected space seen while skipping a failed program: the object exists in
+\* the real heap for ever, so it is registered (without judging the call).
+DoAllocImmOnly(e) ==
+    /\ objs' = (e.id :> [sz |-> e.sz, nf |-> e.nf, k |-> e.k, sem |-> e.sem, h |-> e.h,
+                         f |-> [j \in 1..e.nf |-> Null], a |-> e.a]) @@ objs
+    /\ ivl' = (e.id :> Ivl(e.s, e.sz)) @@ ivl
+    /\ imm' = (e.id :> [a |-> e.a, h |-> e.h]) @@ imm
+    /\ UNCHANGED <<cfg, roots, pinned, bound, failed, aux, stats>>
+
+SetAux(f, v) == aux' = [aux EXCEPT ![f] = v]
+                /\ UNCHANGED <<cfg, objs, roots, ivl, imm, pinned, bound, failed, stats>>
+
+\* C03: inside the argument grid (a heap several times larger than the grid) every legal request
+\* must be satisfied.
+AllocFailOK(e) == G("C03:legal-request-failed", ~aux.grid)
+
+\* C09: allocate-drop-collect cycles
+CycleOK(e) ==
+    /\ G("C09:out-of-memory", e.failed = 0 /\ e.oomSeen = aux.oom)
+    /\ G("C09:floor", e.usedPages <= 16)
+    /\ G("C09:growth", aux.lastUsed >= 0 /\ e.cycle >= 2 => e.usedPages <= aux.lastUsed)
+DoCycle(e) == aux' = [aux EXCEPT !.lastUsed = e.usedPages, !.oom = e.oomSeen]
+              /\ UNCHANGED <<cfg, objs, roots, ivl, imm, pinned, bound, failed, stats>>
+
+\* C08: valid-object and interior-pointer lookups. `Placed` are the objects whose placement the
+\* model knows for certain (reachable at the last collection or allocated since): nothing is
+\* reclaimed between collections, so all of them are valid objects. Answers about other heap
+\* addresses (possibly unreclaimed garbage) are not constrained.
+RefOf(o) == AddW(ivl[o][1], RefOffW)
+LT(p, q) == LE(p, q) /\ p # q
+Inside(p, o) == LE(ivl[o][1], p) /\ LT(p, ivl[o][2])
+WordsFrom(a, b) == (b[1] - a[1]) * LoLimit + b[2] - a[2]      \* a <= b, close to each other
+ProbeOK(r) ==
+    /\ r.obj # <<-1, -1>> /\ r.fip # <<-1, -1>>                                  \* no panic
+    /\ r.out => r.obj = NullA /\ r.fip = NullA
+    /\ \A o \in DOMAIN ivl :
+         /\ RefOf(o) = r.p => r.obj = r.p
+         /\ Inside(r.p, o) /\ RefOf(o) # r.p => r.obj = NullA
+         /\ Inside(r.p, o) /\ LE(RefOf(o), r.p) =>
+               LET dist == WordsFrom(RefOf(o), r.p) * 8 IN
+               /\ dist < r.n => r.fip = RefOf(o)
+               /\ dist > r.n => r.fip = NullA
+         /\ Inside(r.p, o) /\ ~LE(RefOf(o), r.p) => r.fip = NullA
+ProbesOK(e) == G("C08:lookup", \A i \in DOMAIN e.rows : ProbeOK(e.rows[i]))
+
+Skip == UNCHANGED <<cfg, objs, roots, ivl, imm, pinned, bound, failed, aux, stats>>
+FailStep == failed' = TRUE /\ UNCHANGED <<cfg, objs, roots, ivl, imm, pinned, bound, aux, stats>>
 
 Step(e) ==
     CASE e.ev = "Boot"    -> DoBoot(e)
       [] e.ev = "Reset"   -> DoReset(e)
-      [] failed           -> Skip
+      [] failed           -> IF e.ev = "Alloc" /\ e.sem \in NeverCollectedSem /\ e.id \notin DOMAIN objs
+                             THEN DoAllocImmOnly(e) ELSE Skip
+      [] e.ev = "GCRequest" -> SetAux("exh", e.exhaustive)
+      [] e.ev = "GridStart" -> SetAux("grid", TRUE)
+      [] e.ev = "GridEnd"   -> SetAux("grid", FALSE)
+      [] e.ev = "AllocFail" -> IF AllocFailOK(e) THEN Skip ELSE FailStep
+      [] e.ev = "CycleEnd"  -> IF CycleOK(e) THEN DoCycle(e) ELSE FailStep
+      [] e.ev = "Probes"    -> IF ProbesOK(e) THEN Skip ELSE FailStep
       [] e.ev = "Alloc"   -> IF AllocOK(e) THEN DoAlloc(e) ELSE FailStep
       [] e.ev = "Write"   -> IF WriteOK(e) THEN DoWrite(e) ELSE FailStep
       [] e.ev = "Load"    -> IF LoadOK(e) THEN DoSetRoot(e) ELSE FailStep
@@ -194,6 +285,7 @@ TInit ==
     /\ cfg = [plan |-> "?", variant |-> 0, moves |-> TRUE]
     /\ objs = << >> /\ roots = << >> /\ ivl = << >> /\ imm = << >>
     /\ pinned = {} /\ bound = {} /\ failed = FALSE
+    /\ aux = [exh |-> FALSE, grid |-> FALSE, lastUsed |-> -1, oom |-> 0]
     /\ stats = [programs |-> 0, allocs |-> 0, writes |-> 0, gcs |-> 0, moved |-> 0, survivors |-> 0]
 
 TNext == /\ l <= Len(Rec)
